@@ -176,6 +176,7 @@ def parseMix (s : String) : Option (List Mix) :=
 def parseForm (s : String) : Option Form :=
   if s.startsWith "mix:" then (parseMix (s.drop 4).toString).map Form.secMix
   else if s.startsWith "lmix:" then (parseMix (s.drop 5).toString).map Form.listMix
+  else if s.startsWith "cmix:" then (parseMix (s.drop 5).toString).map Form.calleeMix
   else
   match s with
   | "call" => some .call | "bang" => some .bang | "infix" => some .infixOp | "backtick" => some .backtick
